@@ -102,6 +102,14 @@ Proof.
   - split; [exact H1|]. unfold argmin. cbn [map]. f_equal. symmetry. exact H2.
 Qed.
 
+(* the callees: any [ext] answering `validate` as the model does and `_get_reference_beat_variations(r)` with the
+   arrays [vars_of r] (BeatTie.v, Section Callees) *)
+Section Callees.
+Variable ext : string -> list bv -> out bv.
+Variable vars_of : list Q -> list (list Q).
+Hypothesis Xval : forall r e, ext "validate"%string [VArrQ r; VArrQ e] = lift_unit (Beat.validate r e).
+Hypothesis Xvars : forall r, ext "_get_reference_beat_variations"%string [VArrQ r] = OK (VTup (map VArrQ (vars_of r))).
+Local Notation F := (BeatTie.F ext).
 Definition if_then (s : stmt) : list stmt := match s with SIf _ a _ => a | _ => [] end.
 Definition if_else (s : stmt) : list stmt := match s with SIf _ _ b => b | _ => [] end.
 Definition cont_outer : list stmt := for_body (f_body gen_continuity).
@@ -538,7 +546,7 @@ Lemma continuity_split : f_body gen_continuity = before_for (f_body gen_continui
 Proof. reflexivity. Qed.
 Ltac sigs := repeat match goal with |- context [lookup_sig beat_sigs ?f] =>
   let v := eval vm_compute in (lookup_sig beat_sigs f) in change (lookup_sig beat_sigs f) with v end.
-Lemma warn_if fexp (t : bool) (en : env) : run_block (exec beat_sigs beat_ext fexp) (if t then [SWarn] else []) en = SNorm en.
+Lemma warn_if fexp (t : bool) (en : env) : run_block (exec beat_sigs ext fexp) (if t then [SWarn] else []) en = SNorm en.
 Proof. destruct t; reflexivity. Qed.
 Lemma zleb1_nat n : (Z.of_nat n <=? 1)%Z = (n <=? 1)%nat.
 Proof. destruct (n <=? 1)%nat eqn:E; [apply Nat.leb_le in E; apply Z.leb_le; lia|apply Nat.leb_gt in E; apply Z.leb_gt; lia]. Qed.
@@ -547,23 +555,33 @@ Proof. induction l as [|x t IH]; [reflexivity|]. cbn [vflts map all_fins]. fold 
 Definition lift_quad (r : res (Q * Q * Q * Q)) : out (list xval) :=
   match r with Ok (a, b, c, d) => OK [Fin a; Fin b; Fin c; Fin d] | Raise e => EXN e end.
 
-Theorem continuity_tie : forall fexp ref est pth qth pp pq,
-  out_eq (out_floats (run fexp gen_continuity [VArrQ ref; VArrQ est; VFlt pp (Fin pth); VFlt pq (Fin qth)]))
-         (lift_quad (Beat.continuity ref est pth qth)).
+(* Beat.continuity with the metrical variations taken from [vs] *)
+Definition continuity_on (vs : list (list Q)) (ref est : list Q) (pth qth : Q) : res (Q * Q * Q * Q) :=
+  bind (Beat.validate ref est) (fun _ =>
+  if (length est <=? 1)%nat || (length ref <=? 1)%nat then Ok (0, 0, 0, 0)
+  else
+    bind (Beat.map_res (fun v => Beat.continuity_var v est pth qth) vs) (fun rs =>
+    match rs with
+    | (c0, t0) :: rest => Ok (c0, t0, fold_left Qmax (map fst rest) c0, fold_left Qmax (map snd rest) t0)
+    | [] => Raise IndexError
+    end)).
+Theorem continuity_tie_gen : forall fexp ref est pth qth pp pq,
+  out_eq (out_floats (runx ext fexp gen_continuity [VArrQ ref; VArrQ est; VFlt pp (Fin pth); VFlt pq (Fin qth)]))
+         (lift_quad (continuity_on (vars_of ref) ref est pth qth)).
 Proof.
-  intros. unfold run, run_fun. cbn [length f_params gen_continuity Nat.eqb]. unfold exec_block.
-  rewrite continuity_split, run_block_app. unfold Beat.continuity.
-  gz. sigs. gz.
+  intros. unfold runx, run_fun. cbn [length f_params gen_continuity Nat.eqb]. unfold exec_block.
+  rewrite continuity_split, run_block_app. unfold continuity_on.
+  gz. sigs. gz. rewrite Xval.
   destruct (Beat.validate ref est) as [[]|ex]; gz; [|reflexivity].
   rewrite warn_if. gz. rewrite warn_if. gz. rewrite !zleb1_nat.
   destruct (length est <=? 1)%nat eqn:Ee; gz; [repeat constructor|].
   destruct (length ref <=? 1)%nat eqn:Er; gz; [repeat constructor|].
   destruct est as [|e0 et]; [discriminate Ee|].
-  sigs. gz.
+  sigs. gz. rewrite Xvars. gz.
   match goal with |- context [for_loop ?st ?els ?en] =>
-    pose proof (cont_outer_loop fexp e0 et pp pth pq qth (Beat.variations ref) en [] []
+    pose proof (cont_outer_loop fexp e0 et pp pth pq qth (vars_of ref) en [] []
                   ltac:(do 17 eexists; reflexivity)) as L end.
-  destruct (Beat.map_res (fun v => Beat.continuity_var v (e0 :: et) pth qth) (Beat.variations ref)) as [rs|ex]; cbn [Prelude.bind].
+  destruct (Beat.map_res (fun v => Beat.continuity_var v (e0 :: et) pth qth) (vars_of ref)) as [rs|ex]; cbn [Prelude.bind].
   - destruct L as (en' & qs1 & qs2 & E & Hc & H1 & H2). unfold F in E.
     match type of E with _ = ?R =>
       match goal with |- context [for_loop ?st ?els ?en] => replace (for_loop st els en) with R by (symmetry; exact E) end end.
@@ -582,7 +600,29 @@ Proof.
       match goal with |- context [for_loop ?st ?els ?en] => replace (for_loop st els en) with R by (symmetry; exact L) end end.
     gz. reflexivity.
 Qed.
+End Callees.
+Theorem continuity_tie : forall fexp ref est pth qth pp pq,
+  out_eq (out_floats (run fexp gen_continuity [VArrQ ref; VArrQ est; VFlt pp (Fin pth); VFlt pq (Fin qth)]))
+         (lift_quad (Beat.continuity ref est pth qth)).
+Proof. exact (continuity_tie_gen beat_ext Beat.variations beat_ext_val beat_ext_vars). Qed.
+(* continuity calling the TRANSLATED _get_reference_beat_variations program instead of the model's function: the same
+   value, because every test of the loop is invariant under == of the annotation times (BeatProps.continuity_var_shl) *)
+Theorem continuity_tie_prog : forall fexp ref est pth qth pp pq,
+  out_eq (out_floats (runx (prog_ext fexp) fexp gen_continuity [VArrQ ref; VArrQ est; VFlt pp (Fin pth); VFlt pq (Fin qth)]))
+         (lift_quad (Beat.continuity ref est pth qth)).
+Proof.
+  intros. pose proof (continuity_tie_gen (prog_ext fexp) (vars_prog fexp) (prog_ext_val fexp) (prog_ext_vars fexp) fexp ref est pth qth pp pq) as T.
+  replace (continuity_on (vars_prog fexp ref) ref est pth qth) with (Beat.continuity ref est pth qth) in T; [exact T|].
+  unfold continuity_on, Beat.continuity. f_equal.
+  rewrite (BeatProps.map_res_F2_eq leq (fun v => Beat.continuity_var v est pth qth) (fun v => Beat.continuity_var v est pth qth)
+             (vars_prog fexp ref) (Beat.variations ref)); [reflexivity| |apply vars_prog_leq].
+  intros a b Hab. apply (BeatProps.continuity_var_shl 0).
+  - eapply Forall2_impl; [|exact Hab]. intros x y Hxy. cbn beta. rewrite Hxy. ring.
+  - clear. induction est; constructor; [ring|assumption].
+Qed.
+Print Assumptions continuity_tie_gen.
 Print Assumptions continuity_tie.
+Print Assumptions continuity_tie_prog.
 
 (* values observed on the real implementation: (0.1818.., 0.2727.., 0.1818.., 0.2727..) for the 10 / 11 beat example of
    BeatTieGoto.v at the default thresholds; (0.4, 0.6, 0.4, 0.6) for repeated beats (zero intervals) at thresholds 1.5 *)
